@@ -1418,6 +1418,7 @@ DEFAULT_MODELS = {
     "alloc::vec::Vec::<T, A>::as_mut_slice": _ident,
     "core::array::<impl [T; N]>::as_slice": _ident,
     "core::hint::must_use": _ident,
+    "core::clone::Clone::clone": _ident,
     "core::future::future::Future::poll": _m_poll,
     "core::pin::Pin::<Ptr>::new_unchecked": _ident,
     "<F as core::future::into_future::IntoFuture>::into_future": _ident,
